@@ -490,7 +490,9 @@ class PostgresWorkflowStore(WorkflowStore):
             try:
                 yield txn
                 conn.commit()
-            except Exception:
+            except BaseException:
+                # BaseException: an interrupt inside the block must also roll
+                # back, restore versions and unbind the event scope.
                 conn.rollback()
                 txn.rollback_versions()
                 abort_store_transaction()
